@@ -35,20 +35,25 @@ claim('C11',
 claim('C18',
       'Decides certain-defect clauses for the catalogue modules: no self-cancelling `a / b*b` normalisation (K2); no unguarded x*log x '
       'in the closed-form Werner/isotropic expressions (F1) and their masked updates stay in one index space (MS1); a `return_dm` '
-      'option returns the outer product of the very ket returned without it (RD1). Normalisation/PSD/PPT of each constructor '
+      'option returns the outer product of the very ket returned without it (RD1); the UPB complement projector conjugates the bra factor '
+      '(PJ1); result buffers typed after an unconverted parameter never receive a true-division value (DT1: integer coefficients); arrays '
+      'derived from a list are built after its last append (ST1: basis list and projector array agree); no public constructor is memoised '
+      'unfrozen (O3). Normalisation/PSD/PPT of each constructor '
       'is value-level and NOT decided.',
       'Trusted: Python operator precedence; the enumerated guard idioms of F1.',
       'ast pattern + guard reaching-definitions with interval analysis',
-      'DESIGN.md 4 (K, F), 5 C18')
+      'DESIGN.md 4 (K, F, PJ1, DT1, ST1, O3), 5 C18')
 claim('C20',
       'Decides that every certificate comparison of the rank / rank-one detectors carries a tolerance (T1) on the conservative side (T2) that '
       'is not tighter than the precision class of the compared value (T3), and that the '
       'structure-class arms of get_matrix_orthogonal_basis and detect_commute_matrix keep / re-insert Gell-Mann fields '
       'consistently: fields kept after analysis == data fields at synthesis, zeros re-inserted in the dropped block, projections '
-      'keep every data field (G2, G3). Exactness of the span/complement and soundness of the hierarchy are value-level and NOT decided.',
+      'keep every data field (G2, G3); basis and complement receive identical post-processing in every arm (G5); size names bound from '
+      'shape[k] keep their axis identity and merged axes are split in merge order (SH3: the bipartite projector of the rank-one detector is '
+      'reshaped for the right factorisation). Exactness of the span/complement and soundness of the hierarchy are value-level and NOT decided.',
       'Trusted: the decision-function table; provenance of the compared value through resolved callees.',
       'ast provenance lattice on comparisons in decision functions',
-      'DESIGN.md 4 (T), 5 C20')
+      'DESIGN.md 4 (T, G, SH3), 5 C20')
 
 claim('C01',
       'Decides the wrapper/functional agreement clauses for all 9 manifold modules (19 dispatch arms): forward() returns exactly the '
@@ -101,21 +106,28 @@ claim('C13',
       '(F1) and clamp sqrt(1-C^2) for a concurrence that rounds above 1 (F2); in the EOF, concurrence and linear-entropy models the '
       'mixing matrix is a Stiefel(ensemble, rank) point built in __init__ (never swapped), sqrt(rho) takes the top-rank eigenpairs, '
       'forward contracts it once plain and once conjugated, and the literal index lists pair ket-rank with X, bra-rank with X*, keep '
-      'the ensemble index and trace exactly one subsystem (V1). Ranges, LU invariance, monotone relations and loss >= closed form are '
+      'the ensemble index and trace exactly one subsystem (V1); set_density_matrix re-computes every state-derived attribute on every path '
+      '(V2: no early return, no one-armed conditional store - a re-used model never evaluates the previous state); the polar Stiefel map '
+      'factorises exactly M^dagger M (W5: no regularisation term, so the mixing matrix is an isometry at every parameter scale). Ranges, LU invariance, monotone relations and loss >= closed form are '
       'value-level and NOT decided; for the GME model only (a),(b) of V1 are decided (computed index lists).',
       'Trusted: Stiefel point is an isometry (C01 territory).',
       'ast typing of literal contraction index lists + guard reaching-definitions with interval analysis',
-      'DESIGN.md 4 (V1, F), 5 C13')
+      'DESIGN.md 4 (V1, V2, W5, F), 5 C13')
 claim('C15',
       'Decides three clauses of the Euler-angle extraction: a batch is converted element-wise whatever mixture of generic and '
       'degenerate rotations it contains - abstract interpretation over the index-space lattice {Full, Masked(m), Scalar, Unknown} '
       '(MS1); a full-circle angle (alpha, gamma, alpha+-gamma) is never recovered from arccos of one entry alone - it needs arctan2 of '
       'two independent entries or a sign test on a second entry in the same branch (AG1, dataflow closure per branch); every '
-      'arccos argument is clipped, so exactly degenerate and axis-aligned rotations do not produce NaN (F3). Numerical accuracy near '
-      'the gimbal points, the SU(2)->SO(3) homomorphism, Wigner-d and Clebsch-Gordan relations are value-level and NOT decided.',
+      'arccos argument is clipped, so exactly degenerate and axis-aligned rotations do not produce NaN (F3); mask-guarded update blocks '
+      'are independent statements (MS2). Decided exactly, by polynomial arithmetic over Q(i) on the literal formulas (52 obligations): '
+      'su2_to_so3 is the adjoint representation 1/2 Tr(s_i U s_j U^dag) - hence a homomorphism - and su2_to_angle hands the extractor the '
+      'entries its parameters name (AG2); angle_to_so3 = Rz Ry Rz and every extractor branch reads (sin, cos) of exactly the angle '
+      'combination it stores, so extract-then-rebuild is the identity up to branch thresholds (AG3); su2_to_so3(angle_to_su2) = '
+      'angle_to_so3 (AG4). Branch thresholds, floating-point accuracy near the gimbal points, Wigner-d and Clebsch-Gordan relations '
+      'for higher spin are value-level and NOT decided.',
       'Trusted: which parameters are full-length batch arrays and which names are matrix entries (signature of _so3_to_angle_hf0).',
-      'structured forward abstract interpretation over a mask index-space lattice; branch-local def-use closure of inverse-trig results',
-      'DESIGN.md 4 (MS1, AG1), 5 C15')
+      'exact polynomial identity checking of literal formulas over Q(i) (symbolic); abstract interpretation over a mask index-space lattice; branch-local def-use closure',
+      'DESIGN.md 4 (AG1-AG4, MS1, MS2, F3), 5 C15')
 claim('C16',
       'Decides the layout clauses: the basis stacking order, gellmann_matrix arms, analysis concat order and synthesis slices / '
       'off-diagonal placement of numqi.gellmann agree with each other and with the documented order in both backends (G1); every '
@@ -160,11 +172,13 @@ claim('C06',
       'with maximum, upper with minimum, callers take the ray-direction end (I1); the SDP/LP builders of the k-extension, PPT '
       'numerical range and CHA programmes keep complete constraint sets that only grow - PSD of every block, normalisation, the '
       'partial-transpose constraint under use_ppt, linking equalities, lambda>=0 and sum(lambda)=1 (C1: dropping one enlarges the '
-      'feasible set and breaks beta_k-ext+PPT <= beta_PPT / beta_CHA <= beta_k-ext). Threshold exactness, interpolation distance '
+      'feasible set and breaks beta_k-ext+PPT <= beta_PPT / beta_CHA <= beta_k-ext); a norm of an explicitly batched array names its vector '
+      'axis (N2: a batch gets per-item Gell-Mann norms); subsystem roles keep their order through every resolved call - dim0,dim1 -> '
+      'dimA,dimB (AR1, 14 call sites: the inner CHA model is built for the same factorisation the outer tests use). Threshold exactness, interpolation distance '
       'and the numerical beta inequalities are eigenvalue / solver quantities and NOT decided.',
       'Narrow structural claim. Trusted: ascending order of eigvalsh; cvxpy operator semantics (>> is PSD).',
       'ast permutation algebra on literal transposes; tag propagation (lower/upper) through max/min; constraint-kind inventory of list-building statements',
-      'DESIGN.md 4 (P1, C1), 5 C06')
+      'DESIGN.md 4 (P1, I1, C1, N2, AR1), 5 C06')
 claim('C07',
       'Decides the history clause: every function that mutates the recorded gate list - including the 8 factory-made recorders - '
       'resets the memoised tableau on every path (H1, flow-sensitive typestate over discovered memo/source fields), so a query '
